@@ -188,7 +188,8 @@ Theorem C10_main_time_in_synchrotron_periods :
 Proof. exact h5_time_formula. Qed.
 Print Assumptions C10_main_time_in_synchrotron_periods.
 
-(** the inputs of the unit identities above ([t_sync], [revolutionpart], [dt] of Model/H5Units.v) are what main() passes *)
+(** the inputs of the unit identities above ([t_sync], [revolutionpart], [dt] of Model/H5Units.v) are what main() passes:
+    dt = 1/(f_s steps) to the wake field, revolutionpart = f_rev dt to both fields, t_sync = 1/f_s and f_rev to the file *)
 Theorem C10_main_unit_inputs :
   forall (K : Fld) (O : Ops K) (L : leaf -> K) (B : bleaf -> bool),
     gen_fs K O L B <> 0 -> gen_steps K O L B <> 0 ->
